@@ -16,7 +16,9 @@ check(name, items, kind, args, kwargs, value, S, info=None) -> None | (aspect, m
 
   items  the elements of the filter subject in order (for dictsort: the
          (key, value) pairs; for a str subject: its characters)
-  kind   'list' | 'tuple' | 'gen' | 'iter' | 'agen' | 'aiter' | 'str' | 'dict'
+  kind   'list' | 'tuple' | 'gen' | 'iter' | 'agen' | 'aiter' | 'str' | 'dict', or one
+         of the other subject kinds of KIND_CAPS (the caller asks covered(name,
+         kind) first: is the result on such a subject documented at all)
   value  the materialised result of the real filter (lists for lazy results)
   S      vt.gen.fcase_c2223.Sameness over ``items``
 """
@@ -51,6 +53,7 @@ SIG = {
     "sum": [("attribute", None), ("start", 0)],
     "join": [("d", ""), ("attribute", None)],
     "reverse": [], "first": [], "last": [], "list": [], "length": [], "count": [],
+    "random": [], "items": [],
 }
 
 
@@ -467,6 +470,21 @@ def c_length(items, kind, p, got, S):
     return _exact(S, got, len(items))
 
 
+def c_random(items, kind, p, got, S):
+    """'Return a random item from the sequence.'"""
+    if not items:
+        return None
+    if any(got is x for x in items) or any(S.same(got, x) for x in items):
+        return None
+    return ("member", f"{_r(got)} is not an item of the input")
+
+
+def c_items(items, kind, p, got, S):
+    """'x|items is the same as x.items()' (the pairs of the mapping, in its
+    order); an undefined x gives an empty iterator."""
+    return _exact(S, got, [tuple(kv) for kv in items])
+
+
 def c_map(items, kind, args, kwargs, got, S):
     if not args and "attribute" in kwargs:
         g = getter(kwargs["attribute"], default=kwargs.get("default"))
@@ -516,9 +534,11 @@ CONTRACTS = {
     "last": c_last, "min": _c_extreme(min), "max": _c_extreme(max), "sum": c_sum,
     "join": c_join, "list": c_list, "length": c_length, "count": c_length,
 }
+# contracts of filters that are only driven by the subject-type workload
+EXTRA_CONTRACTS = {"random": c_random, "items": c_items}
 
 ITERATOR_RESULT = {"batch", "slice", "unique", "reverse", "map", "select", "reject",
-                   "selectattr", "rejectattr"}
+                   "selectattr", "rejectattr", "items"}
 # filters whose documented Python definition builds a NEW list ("Convert the
 # value into a list" = list(value); "using Python's sorted" = sorted(value)):
 # the result can never be the object that was passed in
@@ -528,6 +548,63 @@ ASYNC_VARIANT = {"first", "groupby", "join", "list", "map", "select", "reject",
 NEEDS_SIZED = {"length", "count"}
 NEEDS_REVERSIBLE = {"last"}
 ALL_FILTERS = sorted(set(CONTRACTS) | {"map", "select", "reject", "selectattr", "rejectattr"})
+EXTRA_FILTERS = sorted(EXTRA_CONTRACTS)
+CONTRACTS.update(EXTRA_CONTRACTS)
+# a random choice: the four drives of one case legitimately return different items
+NONDETERMINISTIC = {"random"}
+
+
+# ------------------------------------------------------------ subject types
+# What a filter may rely on is the PROTOCOL its docstring names, not the
+# concrete type: "Return the first item of a sequence" = next(iter(x)) needs an
+# iterable; "Return the last item of a sequence" = the first item of
+# reversed(x) needs a reversible (the docstring rules generators out, nothing
+# else); "number of items in a container" = len(x) needs a sized container;
+# "Sort an iterable", "unique items from the given iterable", "Slice an
+# iterator", "batches items", "Applies a filter on a sequence of objects",
+# "sum of a sequence", "concatenation of the strings in the sequence", "Convert
+# the value into a list" only iterate; dictsort "Sort a dict" and items "same as
+# x.items()" need a mapping; random "a random item from the sequence" needs an
+# indexable sized sequence.  The capabilities of each subject kind the harness
+# builds (i iterable, s sized, r reversible, q indexable by 0..len-1, m mapping):
+KIND_CAPS = {
+    "list": "isrq", "tuple": "isrq", "listsub": "isrq", "str": "isrq", "range": "isrq",
+    "deque": "isrq", "getitem": "isrq",
+    "asdict": "isr", "odict": "isr", "dkeys": "isr", "dvalues": "isr", "ditems": "isr",
+    "set": "is", "frozenset": "is", "sizediter": "is",
+    "gen": "i", "iter": "i", "agen": "i", "aiter": "i",
+    "revlen": "sr",
+    # "the default behavior is to evaluate to an empty string if printed or
+    # iterated over, and to fail for every other operation" (templates.rst)
+    "undef": "i",
+    "dict": "m", "m:odict": "m", "m:proxy": "m", "m:abc": "m", "m:userdict": "m",
+    "m:defaultdict": "m",
+}
+REQUIRES = {"last": "r", "length": "s", "count": "s", "dictsort": "m", "items": "m",
+            "random": "q"}
+KIND_GROUP = {
+    "asdict": "dict", "odict": "dict", "dkeys": "dict-view", "dvalues": "dict-view",
+    "ditems": "dict-view", "set": "set", "frozenset": "set", "str": "str", "range": "range",
+    "deque": "deque", "listsub": "list-subclass", "getitem": "getitem-len-object",
+    "revlen": "reversed-len-object", "sizediter": "iter-len-object", "iter": "iter-object",
+    "gen": "generator", "undef": "undefined", "list": "list", "tuple": "tuple",
+    "m:odict": "mapping-type", "m:proxy": "mapping-type", "m:abc": "mapping-type",
+    "m:userdict": "mapping-type", "m:defaultdict": "mapping-type", "dict": "dict",
+}
+# filters whose contract does not look inside the elements (so the elements may
+# be the (index, item) pairs of a dict.items() view)
+ELEMENT_AGNOSTIC = {"first", "last", "length", "count", "list", "reverse", "batch", "slice",
+                    "random"}
+
+
+def covered(name, kind):
+    """Does the documentation define the result of ``name`` on a subject of
+    this kind?  If not, only sync/async/template agreement is demanded."""
+    caps = KIND_CAPS[kind]
+    if kind == "undef":
+        # iterates as empty; nothing else is promised
+        return REQUIRES.get(name, "i") == "i" or name == "items"
+    return REQUIRES.get(name, "i") in caps
 
 
 # ------------------------------------------------------------ case folding
